@@ -272,7 +272,7 @@ def rule_prev_class(ctx):
                 ctx.ok(site(fn, bi), "previous class carried on every iteration and taken from the current element")
             else:
                 ctx.violation(key + "|value", site(fn, bi), "previous-class is assigned something other than the class of the current element")
-    ctx.floor("loops with a loop-carried previous class", n, 4)
+    ctx.floor("loops with a loop-carried previous class", n, 2)
 
 
 # ---------------------------------------------------------------- no-wrap
@@ -637,6 +637,12 @@ def rule_bonus_args(ctx):
             for e in exprs:
                 cc = [x for x in walk(e) if x[0] == "call" and (str(x[3]).endswith("char_class_and_normalize") or str(x[3]).endswith("Char::char_class") or str(x[1]).endswith("::char_class") or str(x[1]).endswith("char_class_and_normalize"))]
                 if not cc:
+                    # a class that arrives as a component of what a generic iterator parameter yields was computed by the
+                    # caller's candidate finder: not visible from here, hence undecided rather than wrong
+                    opaque_item = any(x[0] == "call" and str(x[1]).endswith("::next") for x in walk(e))
+                    if opaque_item:
+                        verdict = ("undecided", "the class argument is part of an item an iterator yields (%s): which character it is the class of is decided where the items are produced, which this rule does not follow" % show(e)[:60])
+                        break
                     verdict = ("bad", "class argument %s is not a character class of anything" % show(e)[:80])
                     break
                 ch = cc[0][2][0]
@@ -687,6 +693,9 @@ def rule_bonus_args(ctx):
                     break
                 verdict = ("bad", "cannot tell which character's class is used: %s" % show(ch)[:80])
                 break
+            if verdict and verdict[0] == "undecided":
+                ctx.fail_closed("%s: %s" % (site(fn, bi), verdict[1]))
+                continue
             if verdict:
                 ctx.violation(key + "|class", site(fn, bi), verdict[1])
                 continue
